@@ -44,7 +44,7 @@ void mc_wait_all(void) { struct timespec ts = {0, 50000000}; nanosleep(&ts, NULL
 long mc_exec_id(void) { return (long)getpid(); }
 int mc_mutex_owner(const void *m) { (void)m; return self_id; }             /* not observable on real glibc: the harness check becomes a no-op */
 int mc_in_call_blocked(void) { return 0; }
-int mc_long_waits(void) { return 1; }
+int mc_long_waits(void) { return 0; }
 void mc_mark(void) {}
 long mc_barrier_count(void) { static long n; return ++n; }
 long mc_blocks_outstanding(void) { return 0; }
